@@ -14,6 +14,7 @@ GROUPS = {
     "dil_l2": ["C12"],
     "dil_mid": ["C10", "C13"],
     "dil_flow": ["C15"],
+    "dil_timer": ["C16"],
 }
 
 
